@@ -1,0 +1,57 @@
+//go:build verif
+
+package veriflaws
+
+import (
+	"github.com/csgura/fp"
+	"github.com/csgura/fp/internal/verifspec"
+)
+
+// Recursive specification functions over input iterators ("sources", see
+// verifspec.IterLen / IterAt / IterPos).  `it` is the source; element i is
+// verifspec.IterAt[A](it, i).  One unfolding per call site.
+
+// RecIterFoldL is the left fold of the first n elements of the source.
+func RecIterFoldL[A, B any](it any, n int, zero B, f func(B, A) B) B {
+	if n <= 0 {
+		return zero
+	}
+	return f(RecIterFoldL(it, n-1, zero, f), verifspec.IterAt[A](it, n-1))
+}
+
+// RecIterFoldTry is foldM in Try over the first n elements: the first failure
+// wins and f is not consulted after it.
+func RecIterFoldTry[A, B any](it any, n int, zero B, f func(B, A) fp.Try[B]) fp.Try[B] {
+	if n <= 0 {
+		return fp.Success(zero)
+	}
+	prev := RecIterFoldTry(it, n-1, zero, f)
+	if prev.IsSuccess() {
+		return f(prev.Get(), verifspec.IterAt[A](it, n-1))
+	}
+	return prev
+}
+
+// RecIterFoldOption is foldM in Option over the first n elements.
+func RecIterFoldOption[A, B any](it any, n int, zero B, f func(B, A) fp.Option[B]) fp.Option[B] {
+	if n <= 0 {
+		return fp.Some(zero)
+	}
+	prev := RecIterFoldOption(it, n-1, zero, f)
+	if prev.IsDefined() {
+		return f(prev.Get(), verifspec.IterAt[A](it, n-1))
+	}
+	return prev
+}
+
+// RecIterFirstErr is the first non-nil f(element) among the first n elements, or nil.
+func RecIterFirstErr[A any](it any, n int, f func(A) error) error {
+	if n <= 0 {
+		return nil
+	}
+	prev := RecIterFirstErr(it, n-1, f)
+	if prev != nil {
+		return prev
+	}
+	return f(verifspec.IterAt[A](it, n-1))
+}
